@@ -138,3 +138,38 @@ package streams
 //@   replay template multiwriteto
 //@   replay val nsrc = mr.nsrc
 //@   replay val cur = mr.cur
+
+//@ func (*MultiReaderCloser).WriteTo
+//@   tags C16 C07
+//@   requires mr != nil && inv(mr)
+//@   modifies mr.readers, mr.readers[0:len(mr.readers)], mr.cur, pos, closes, w.wlog, w.wpos
+//@   ensures mr.nsrc == old(mr.nsrc) && mr.srcs == old(mr.srcs)
+//@   ensures [C16.multi.writeto.inv] inv(mr)
+//@   ensures [C16.multi.writeto.done] err == nil ==> mr.cur == mr.nsrc
+
+// ---- TeeReadCloser ----
+
+//@ type TeeReadCloser
+//@   invariant self.r != nil ==> (0 <= self.r.pos && self.r.pos <= self.r.total)
+
+//@ func (*TeeReadCloser).Read
+//@   tags C16 C07
+//@   requires t != nil && inv(t)
+//@   modifies p[0:len(p)], t.eof, t.r.pos, t.w.wlog, t.w.wpos
+//@   ensures inv(t)
+//@   ensures [C16.tee.closed] (old(t.r) == nil || old(t.w) == nil) ==> (n == 0 && err == io.ErrClosedPipe)
+//@   ensures [C16.tee.bytes] (t.r != nil && t.w != nil && err == nil) ==> (0 <= n && n <= len(p) && t.r.pos == old(t.r.pos) + n
+//@        && (forall k :: 0 <= k && k < n ==> p[k] == t.r.data[old(t.r.pos) + k]))
+//@   ensures [C16.tee.written] (t.r != nil && t.w != nil && err == nil) ==> (t.w.wpos == old(t.w.wpos) + n
+//@        && (forall k :: 0 <= k && k < n ==> t.w.wlog[old(t.w.wpos) + k] == t.r.data[old(t.r.pos) + k]))
+//@   ensures [C16.tee.eof] (t.r != nil && t.w != nil && err == io.EOF && !old(t.eof)) ==> t.r.pos == t.r.total
+//@   ensures [C16.tee.eof.written] (t.r != nil && t.w != nil && err == io.EOF) ==> (t.w.wpos == old(t.w.wpos) + n
+//@        && (forall k :: 0 <= k && k < n ==> t.w.wlog[old(t.w.wpos) + k] == t.r.data[old(t.r.pos) + k]))
+
+//@ func (*TeeReadCloser).Close
+//@   tags C16 C07
+//@   requires t != nil
+//@   modifies t.r, t.w, closes
+//@   ensures t.r == nil && t.w == nil
+//@   ensures [C16.tee.close.r] (implements(old(t.r), "io.Closer") && old(t.w) != old(t.r)) ==> old(t.r).closes == old(old(t.r).closes) + 1
+//@   ensures [C16.tee.close.w] (implements(old(t.w), "io.Closer") && old(t.w) != old(t.r)) ==> old(t.w).closes == old(old(t.w).closes) + 1
